@@ -78,6 +78,9 @@ func (t *ServerTransport) Handshake(handshakePacket *parser.Packet, w http.Respo
 	}
 	if t.readLimit != 0 {
 		t.conn.SetReadLimit(t.readLimit)
+	} else {
+		// No limit (DisableMaxBufferSize): lift the websocket library's 32 KiB default too.
+		t.conn.SetReadLimit(-1)
 	}
 	// sid is only for webtransport
 	return "", t.writeHandshakePacket(handshakePacket)
